@@ -63,8 +63,10 @@ func (p *process) Invoke(msgs []Envelope) {
 		nmsg = len(msgs)
 		// numbers of msgs that are processed.
 		nproc = 0
-		// the graceful poison pill whose backlog is being drained, if any.
+		// the graceful poison pill whose backlog is being drained, if any, and
+		// the poison pills the drain has passed over so far.
 		draining *Envelope
+		skipped  []Envelope
 	)
 	defer func() {
 		// If we recovered, we buffer up all the messages that we could not process
@@ -74,6 +76,7 @@ func (p *process) Invoke(msgs []Envelope) {
 			p.mbuffer = make([]Envelope, 0, nmsg-nproc+1)
 			if draining != nil {
 				p.mbuffer = append(p.mbuffer, *draining)
+				p.mbuffer = append(p.mbuffer, skipped...)
 			}
 			p.mbuffer = append(p.mbuffer, msgs[nproc:]...)
 			p.tryRestart(v)
@@ -90,6 +93,12 @@ func (p *process) Invoke(msgs []Envelope) {
 				draining = &msgs[i]
 				for _, m := range msgs[i+1:] {
 					nproc++
+					if _, isPill := m.Msg.(poisonPill); isPill {
+						// stays behind the draining pill if we crash, so that its
+						// caller is still signalled once the actor has stopped.
+						skipped = append(skipped, m)
+						continue
+					}
 					p.invokeMsg(m)
 				}
 				draining = nil
@@ -174,6 +183,11 @@ func (p *process) tryRestart(v any) {
 			Timestamp: time.Now(),
 		})
 		p.cleanup(nil)
+		// what was buffered for the restart will never be processed.
+		for _, m := range p.mbuffer {
+			p.discard(m)
+		}
+		p.mbuffer = nil
 		return
 	}
 
